@@ -155,9 +155,26 @@ func Check(c Case) (v vcase.Verdict) {
 			v.Failf("Parse(%s) fields %v", strconv.Quote(k), fs)
 			return
 		}
+		// per-measurement keys first (on a projection that has projected nothing yet), then the
+		// key of the whole result: without a .unit field they are all the same key
+		pv := proj.ProjectValues(res)
+		if len(pv) != len(res.Values) {
+			v.Failf("ProjectValues returned %d keys for %d measurements", len(pv), len(res.Values))
+			return
+		}
+		for _, kk := range pv {
+			if got := kk.Get(fs[0]); got != wv {
+				v.Failf("name %q config %v: projection %q: ProjectValues extracted %q, reference %q", name, cfgRef, k, got, wv)
+				return
+			}
+		}
 		key := proj.Project(res)
 		if got := key.Get(fs[0]); got != wv {
 			v.Failf("name %q config %v: projection %q extracted %q, reference %q", name, cfgRef, k, got, wv)
+			return
+		}
+		if pv[0] != key {
+			v.Failf("name %q: projection %q: Project and ProjectValues give different keys for the same result", name, k)
 			return
 		}
 		// the same term written with unquoted words, when key and value need no quoting
